@@ -45,16 +45,19 @@ HttpRequestMethod::HttpRequestMethodXXX(char const *begin)
         return;
 
     // TODO: Optimize this linear search.
+    const auto tokenLength = static_cast<SBuf::size_type>(end - begin);
     for (++theMethod; theMethod < Http::METHOD_ENUM_END; ++theMethod) {
         // RFC 2616 section 5.1.1 - Method names are case-sensitive
         // NP: this is not a HTTP_VIOLATIONS case since there is no MUST/SHOULD involved.
-        if (0 == image().caseCmp(begin, end-begin)) {
+        // SBuf::caseCmp(s, n) compares at most n characters: without the length()
+        // test, a token that is a prefix of a known method name ("PO") matches it
+        if (image().length() == tokenLength && 0 == image().caseCmp(begin, tokenLength)) {
 
             // relaxed parser allows mixed-case and corrects them on output
             if (Config.onoff.relaxed_header_parser)
                 return;
 
-            if (0 == image().cmp(begin, end-begin))
+            if (0 == image().cmp(begin, tokenLength))
                 return;
         }
     }
